@@ -2,6 +2,7 @@
 package main
 
 import (
+	"bufio"
 	"bytes"
 	"fmt"
 	"io"
@@ -260,6 +261,42 @@ func entries() []entry {
 			err := wsutil.HandleControlMessage(d, c.st(), wsutil.Message{OpCode: ws.OpCode(c.op), Payload: c.payload})
 			return d.Bytes(), err
 		}},
+		{"Handle/source-is-a-buffered-reader-that-already-holds-the-payload", func(c ctlCase) ([]byte, error) {
+			// the source is a *bufio.Reader with the payload and what follows it already buffered;
+			// once with the bytes as on the wire (masked on the server side), once with a payload
+			// a layer below has unmasked already (DisableSrcCiphering) while the header still
+			// says what the wire said
+			var first []byte
+			var firstErr error
+			for i, unmaskedBelow := range []bool{false, true} {
+				d := env.NewDst()
+				h := ws.Header{Fin: true, OpCode: ws.OpCode(c.op), Length: int64(len(c.payload))}
+				wire := c.payload
+				if c.side == streams.Server {
+					h.Masked, h.Mask = true, srcMask
+					if !unmaskedBelow {
+						wire = refmodel.XOR(c.payload, srcMask, 0)
+					}
+				}
+				br := bufio.NewReaderSize(bytes.NewReader(append(append([]byte{}, wire...), "what follows the frame"...)), 256)
+				br.Peek(1)
+				err := wsutil.ControlHandler{Src: br, Dst: d, State: c.st(), DisableSrcCiphering: unmaskedBelow}.Handle(h)
+				if i == 0 {
+					first, firstErr = d.Bytes(), err
+					continue
+				}
+				if (err == nil) != (firstErr == nil) || !bytes.Equal(stripMaskKeys(d.Bytes()), stripMaskKeys(first)) {
+					// report the second run; judgeReply names what is wrong with it
+					return d.Bytes(), err
+				}
+				rest, _ := io.ReadAll(br)
+				if err == nil && string(rest) != "what follows the frame" {
+					return nil, fmt.Errorf("harness: the handler left %q in the source, want the bytes that follow the frame", rest)
+				}
+			}
+			return first, firstErr
+		}},
+
 		{"HandleClient/ServerControlMessage", func(c ctlCase) ([]byte, error) {
 			d := env.NewDst()
 			var err error
@@ -888,4 +925,22 @@ func main() {
 			}
 		})
 	})
+}
+
+// stripMaskKeys renders reply bytes with every frame unmasked and its key zeroed, so that two
+// replies can be compared whatever random keys they carry.
+func stripMaskKeys(b []byte) []byte {
+	frames, rest := drivers.ParseFrames(b)
+	var out []byte
+	for _, f := range frames {
+		out = append(out, f.H.Op, byte(len(f.Payload)))
+		if f.H.Fin {
+			out = append(out, 1)
+		}
+		if f.H.Masked {
+			out = append(out, 2)
+		}
+		out = append(out, f.Payload...)
+	}
+	return append(out, rest...)
 }
